@@ -415,6 +415,16 @@ PAIRS = [
 ]
 
 
+SYM_PAIRS = [
+    ("permuting declarations", "let f x = g x;\nlet g x = f x;\nlet a = { 'b b };\nlet b = { 'a a };\nres / on get -> <a>;\n",
+     "let a = { 'b b };\nlet b = { 'a a };\nlet f x = g x;\nlet g x = f x;\nres / on get -> <a>;\n"),
+    ("permuting declarations", "let a = { 'b b };\nlet b = { 'a a };\nlet c = { 'd d };\nlet d = { 'c c };\nres / on get -> <a> :: <status=404, c>;\n",
+     "let d = { 'c c };\nlet b = { 'a a };\nlet c = { 'd d };\nlet a = { 'b b };\nres / on get -> <a> :: <status=404, c>;\n"),
+    ("permuting declarations", "let w x = v x;\nlet s = { 'self [s] };\nlet v x = w x;\nres / on get -> <s>;\n",
+     "let s = { 'self [s] };\nlet v x = w x;\nlet w x = v x;\nres / on get -> <s>;\n"),
+]
+
+
 def check(ctx):
     ctx.proof = core.proof_stage("C05", thorough=ctx.thorough)
     ok, out = core.ensure_harness()
@@ -449,6 +459,34 @@ def check(ctx):
             ctx.violation("a meaning-preserving rewrite makes an accepted program rejected (%s)" % what, inp, "accepted", b.get("msg"))
         elif canon.canon_doc(a["doc"]) != canon.canon_doc(b["doc"]):
             ctx.violation("a meaning-preserving rewrite changes the emitted document (%s)" % what, inp, "the same document", "a different document")
+    # reversible rewrites (permuting declarations, consistent renaming, trivia) applied to programs of either verdict: since
+    # the inverse rewrite is of the same kind, one side accepted and the other rejected is a violation whichever side it is
+    from . import cyc
+    sym = [(SYM_PAIRS[k][0], SYM_PAIRS[k][1], SYM_PAIRS[k][2]) for k in range(len(SYM_PAIRS))]
+    for _ in range(900 if ctx.thorough else 120):
+        src = cyc.gen_cyclic(ctx.rng)[0]["mods"]["file:///w/main.oal"]
+        lines = src.split("\n")
+        lets = [l for l in lines if l.startswith("let ")]
+        rest = [l for l in lines if not l.startswith("let ")]
+        q = list(lets)
+        ctx.rng.shuffle(q)
+        if q != lets:
+            sym.append(("permuting declarations", src, "\n".join(q + rest)))
+    ra = progs.compile_many([{"mods": {MAIN: a}, "main": MAIN} for _, a, _ in sym])
+    rb = progs.compile_many([{"mods": {MAIN: b}, "main": MAIN} for _, _, b in sym])
+    for (what, before, after), a, b in zip(sym, ra, rb):
+        ctx.cov["evaluations"] += 1
+        inp = {"original": {"mods": {MAIN: before}, "main": MAIN}, "rewritten": {"mods": {MAIN: after}, "main": MAIN}, "steps": [what]}
+        oka, okb = a.get("status") == "ok", b.get("status") == "ok"
+        if "skipped" in (a.get("status"), b.get("status")) or a.get("status") in ("crash", "panic") or b.get("status") in ("crash", "panic"):
+            continue
+        if oka != okb:
+            ctx.violation("a meaning-preserving rewrite makes an accepted program rejected (%s)" % what,
+                          inp if oka else dict(inp, original=inp["rewritten"], rewritten=inp["original"]), "accepted", (b if oka else a).get("msg"))
+        elif oka and canon.canon_doc(a["doc"]) != canon.canon_doc(b["doc"]):
+            ctx.violation("a meaning-preserving rewrite changes the emitted document (%s)" % what, inp, "the same document", "a different document")
+        else:
+            ctx.count("symmetric_pairs_" + ("accepted" if oka else "rejected"))
     n = 4500 if ctx.thorough else 300
     ps = progs.gen_programs(ctx, n)
     # the evaluator tie (C05_alpha_evaluation is a theorem about Model/Eval.v)
